@@ -89,7 +89,7 @@ package db
 //@ func newKV(path, key) (ret, err)
 //@   ensures [C04 newKV.fail-no-kv] err != nil ==> (ret == nil && disk == old(disk))
 //@   ensures [C02,C03 newKV.fields] err == nil ==> (ret != nil && fresh(ret) && ret.gen == 1 && ret.path == path && ret.kekCipher == key)
-//@   ensures [C02 newKV.wf] err == nil ==> wf(ret)
+//@   ensures [C01,C02,C06,C09 newKV.wf] err == nil ==> wf(ret)
 //@   ensures [C03 newKV.sync] err == nil ==> sync(ret)
 //@   ensures [C05 newKV.keys] err == nil ==> keys(ret)
 //@   ensures [C02 newKV.empty] err == nil ==> (forall n string :: !has(ret.secrets, n))
@@ -99,7 +99,7 @@ package db
 //@   requires diskHas(disk, path) ==> wfClear(clearOfFile(diskData(disk, path), kek))
 //@   ensures [C03,C05 open.readonly] old(diskHas(disk, path)) ==> disk == old(disk)
 //@   ensures [C03,C17 open.fields] err == nil ==> (ret != nil && fresh(ret) && ret.gen == 1 && ret.path == path && ret.kekCipher == kek)
-//@   ensures [C02,C03 open.wf] err == nil ==> wf(ret)
+//@   ensures [C01,C02,C03,C06,C09 open.wf] err == nil ==> wf(ret)
 //@   ensures [C03,C05 open.decodes] err == nil ==> sync(ret)
 //@   ensures [C05 open.keys] err == nil ==> keys(ret)
 //@   ensures [C04 open.fail-no-kv] err != nil ==> ret == nil
@@ -144,7 +144,7 @@ package db
 //@ func (*kv).put(kv, name, value) (ver, err)
 //@   requires wf(kv) && sync(kv) && kv.dekCipher != nil && !isKEK(kv.dekCipher)
 //@   requires has(kv.secrets, name) ==> kv.secrets[name].LatestVersion < 4294967295
-//@   ensures [C02,C04 put.wf] wf(kv)
+//@   ensures [C01,C02,C04,C06,C09 put.wf] wf(kv)
 //@   ensures [C03,C04 put.sync] sync(kv)
 //@   ensures [C04 put.fail-disk-unchanged] err != nil ==> (disk == old(disk) && kv.gen == old(kv.gen))
 //@   ensures [C05 put.kek-unused] kekUses == old(kekUses)
@@ -165,7 +165,7 @@ package db
 
 //@ func (*kv).setActive(kv, name, version) (err)
 //@   requires wf(kv) && sync(kv) && kv.dekCipher != nil && !isKEK(kv.dekCipher)
-//@   ensures [C02,C04 setActive.wf] wf(kv)
+//@   ensures [C01,C02,C04,C06,C09 setActive.wf] wf(kv)
 //@   ensures [C03,C04 setActive.sync] sync(kv)
 //@   ensures [C02,C04 setActive.fail-nochange] err != nil ==> (viewUnchanged(kv) && disk == old(disk) && kv.gen == old(kv.gen))
 //@   ensures [C02 setActive.others] othersUnchanged(kv, name)
@@ -178,7 +178,7 @@ package db
 
 //@ func (*kv).deleteVersion(kv, name, version) (err)
 //@   requires wf(kv) && sync(kv) && kv.dekCipher != nil && !isKEK(kv.dekCipher)
-//@   ensures [C02,C04 deleteVersion.wf] wf(kv)
+//@   ensures [C01,C02,C04,C06,C09 deleteVersion.wf] wf(kv)
 //@   ensures [C03,C04 deleteVersion.sync] sync(kv)
 //@   ensures [C02,C04 deleteVersion.fail-nochange] err != nil ==> (viewUnchanged(kv) && disk == old(disk) && kv.gen == old(kv.gen))
 //@   ensures [C02 deleteVersion.others] othersUnchanged(kv, name)
@@ -192,7 +192,7 @@ package db
 
 //@ func (*kv).deleteSecret(kv, name) (err)
 //@   requires wf(kv) && sync(kv) && kv.dekCipher != nil && !isKEK(kv.dekCipher)
-//@   ensures [C02,C04 deleteSecret.wf] wf(kv)
+//@   ensures [C01,C02,C04,C06,C09 deleteSecret.wf] wf(kv)
 //@   ensures [C03,C04 deleteSecret.sync] sync(kv)
 //@   ensures [C02,C04 deleteSecret.fail-nochange] err != nil ==> (viewUnchanged(kv) && disk == old(disk) && kv.gen == old(kv.gen))
 //@   ensures [C02 deleteSecret.others] othersUnchanged(kv, name)
@@ -215,7 +215,7 @@ package db
 //@ func Open(path, key, auditLog) (ret, err)
 //@   requires diskHas(disk, path) ==> wfClear(clearOfFile(diskData(disk, path), key))
 //@   requires auditLog != nil ==> auditLog.enc != nil
-//@   ensures [C02,C03,C14 dbopen.establishes-inv] err == nil ==> (ret != nil && fresh(ret) && dbInv(ret) && ret.auditLog == auditLog && ret.kv.path == path && ret.kv.gen == 1)
+//@   ensures [C01,C02,C03,C06,C09,C14 dbopen.establishes-inv] err == nil ==> (ret != nil && fresh(ret) && dbInv(ret) && ret.auditLog == auditLog && ret.kv.path == path && ret.kv.gen == 1)
 //@   ensures [C03,C05 dbopen.readonly] old(diskHas(disk, path)) ==> disk == old(disk)
 //@   ensures [C06 dbopen.needs-audit-log] auditLog == nil ==> (err != nil && ret == nil && disk == old(disk))
 //@   ensures [C04 dbopen.fail-no-db] err != nil ==> ret == nil
@@ -232,16 +232,16 @@ package db
 
 //@ func (*DB).Path(db) (r)
 //@   requires dbInv(db)
-//@   ensures [C14 path.inv] dbInv(db) && r == db.kv.path
+//@   ensures [C01,C06,C09,C14 path.inv] dbInv(db) && r == db.kv.path
 //@   at call filePath: assert [C14 path.locked] db.mu
 //@ func (*DB).WriteGen(db) (r)
 //@   requires dbInv(db)
-//@   ensures [C14,C17 writegen.inv] dbInv(db) && r == db.kv.gen
+//@   ensures [C01,C06,C09,C14,C17 writegen.inv] dbInv(db) && r == db.kv.gen
 //@   at call writeGen: assert [C14 writegen.locked] db.mu
 
 //@ func (*DB).Info(db, caller, name) (info, err)
 //@   requires dbInv(db)
-//@   ensures [C02,C03,C14 info.inv] dbInv(db)
+//@   ensures [C01,C02,C03,C06,C09,C14 info.inv] dbInv(db)
 //@   ensures [C14 info.one-critical-section] lockOps <= old(lockOps) + 1
 //@   ensures [C01,C02 info.noeffect] noEffect(db)
 //@   ensures [C01 info.deny] !allows(caller.Permissions, "info", name) ==> (info == nil && errIs(err, ErrAccessDenied))
@@ -254,7 +254,7 @@ package db
 
 //@ func (*DB).Get(db, caller, name) (sv, err)
 //@   requires dbInv(db)
-//@   ensures [C02,C03,C14 get.inv] dbInv(db)
+//@   ensures [C01,C02,C03,C06,C09,C14 get.inv] dbInv(db)
 //@   ensures [C14 get.one-critical-section] lockOps <= old(lockOps) + 1
 //@   ensures [C01,C02 get.noeffect] noEffect(db)
 //@   ensures [C01 get.deny] !allows(caller.Permissions, "get", name) ==> (sv == nil && errIs(err, ErrAccessDenied))
@@ -269,7 +269,7 @@ package db
 
 //@ func (*DB).GetVersion(db, caller, name, version) (sv, err)
 //@   requires dbInv(db)
-//@   ensures [C02,C03,C14 getversion.inv] dbInv(db)
+//@   ensures [C01,C02,C03,C06,C09,C14 getversion.inv] dbInv(db)
 //@   ensures [C14 getversion.one-critical-section] lockOps <= old(lockOps) + 1
 //@   ensures [C01,C02 getversion.noeffect] noEffect(db)
 //@   ensures [C01 getversion.deny] !allows(caller.Permissions, "get", name) ==> (sv == nil && errIs(err, ErrAccessDenied))
@@ -284,7 +284,7 @@ package db
 
 //@ func (*DB).GetConditional(db, caller, name, oldVersion) (sv, err)
 //@   requires dbInv(db)
-//@   ensures [C02,C03,C14 getcond.inv] dbInv(db)
+//@   ensures [C01,C02,C03,C06,C09,C14 getcond.inv] dbInv(db)
 //@   ensures [C14 getcond.one-critical-section] lockOps <= old(lockOps) + 1
 //@   ensures [C01,C02 getcond.noeffect] noEffect(db)
 //@   ensures [C01 getcond.deny] !allows(caller.Permissions, "get", name) ==> (sv == nil && errIs(err, ErrAccessDenied) && !errIs(err, api.ErrValueNotChanged) && !errIs(err, ErrNotFound))
@@ -301,7 +301,7 @@ package db
 
 //@ func (*DB).Put(db, caller, name, value) (ver, err)
 //@   requires dbInv(db) && counterRoom(db, name)
-//@   ensures [C02,C03,C04,C14 put.inv] dbInv(db)
+//@   ensures [C01,C02,C03,C04,C06,C09,C14 put.inv] dbInv(db)
 //@   ensures [C14 put.one-critical-section] lockOps <= old(lockOps) + 1
 //@   ensures [C01 put.noeffect-without-grant] !allows(caller.Permissions, "put", name) ==> (ver == 0 && err != nil && noEffect(db))
 //@   ensures [C01 put.deny] (!allows(caller.Permissions, "put", name) && name != "") ==> errIs(err, ErrAccessDenied)
@@ -322,7 +322,7 @@ package db
 
 //@ func (*DB).Activate(db, caller, name, version) (err)
 //@   requires dbInv(db)
-//@   ensures [C02,C03,C04,C14 activate.inv] dbInv(db)
+//@   ensures [C01,C02,C03,C04,C06,C09,C14 activate.inv] dbInv(db)
 //@   ensures [C14 activate.one-critical-section] lockOps <= old(lockOps) + 1
 //@   ensures [C01 activate.noeffect-without-grant] !allows(caller.Permissions, "activate", name) ==> (err != nil && noEffect(db))
 //@   ensures [C01 activate.deny] (!allows(caller.Permissions, "activate", name) && name != "") ==> errIs(err, ErrAccessDenied)
@@ -343,7 +343,7 @@ package db
 
 //@ func (*DB).DeleteVersion(db, caller, name, version) (err)
 //@   requires dbInv(db)
-//@   ensures [C02,C03,C04,C14 deleteversion.inv] dbInv(db)
+//@   ensures [C01,C02,C03,C04,C06,C09,C14 deleteversion.inv] dbInv(db)
 //@   ensures [C14 deleteversion.one-critical-section] lockOps <= old(lockOps) + 1
 //@   ensures [C01 deleteversion.deny] !allows(caller.Permissions, "delete", name) ==> (errIs(err, ErrAccessDenied) && noEffect(db))
 //@   ensures [C01,C06 deleteversion.deny-exact] (!allows(caller.Permissions, "delete", name) && auditLog != old(auditLog)) ==> auditLog == snoc(old(auditLog), evC(caller, "delete", name, version, false))
@@ -364,7 +364,7 @@ package db
 
 //@ func (*DB).Delete(db, caller, name) (err)
 //@   requires dbInv(db)
-//@   ensures [C02,C03,C04,C14 delete.inv] dbInv(db)
+//@   ensures [C01,C02,C03,C04,C06,C09,C14 delete.inv] dbInv(db)
 //@   ensures [C14 delete.one-critical-section] lockOps <= old(lockOps) + 1
 //@   ensures [C01 delete.deny] !allows(caller.Permissions, "delete", name) ==> (errIs(err, ErrAccessDenied) && noEffect(db))
 //@   ensures [C01,C06 delete.deny-exact] (!allows(caller.Permissions, "delete", name) && auditLog != old(auditLog)) ==> auditLog == snoc(old(auditLog), evC(caller, "delete", name, 0, false))
@@ -382,7 +382,7 @@ package db
 //@      x.ActiveVersion == db.kv.secrets[x.Name].ActiveVersion }
 //@ func (*DB).List(db, caller) (ret, err)
 //@   requires dbInv(db)
-//@   ensures [C02,C03,C14 list.inv] dbInv(db)
+//@   ensures [C01,C02,C03,C06,C09,C14 list.inv] dbInv(db)
 //@   ensures [C14 list.one-critical-section] lockOps <= old(lockOps) + 1
 //@   ensures [C01,C02 list.noeffect] noEffect(db)
 //@   ensures [C06 list.trail] auditLog == old(auditLog) || auditLog == snoc(old(auditLog), evC(caller, "info", "", 0, true))
